@@ -22,6 +22,8 @@ type FuncResult struct {
 	Obligs      []*Oblig
 	Unsupported string
 	ContractErr string
+	Cover       *Oblig
+	Frame       *Frame // top frame (parameters, entry state) for replay generators
 	Instrs      int
 }
 
@@ -60,6 +62,7 @@ func (e *Engine) VerifyFunc(fn *ssa.Function, opts VerifyOpts) (res *FuncResult)
 	ct := e.contracts.Funcs[ctx.fnKey]
 	f := &Frame{ctx: ctx, fn: fn, tmap: TMap{}, vals: map[ssa.Value]Val{}, contract: ct, curKey: map[*ssa.Range]*Term{}, ghosts: map[string]SVal{}}
 	f.checkFrame = opts.FrameFresh || (ct != nil && ct.Fresh)
+	res.Frame = f
 	st := &State{heap: map[string]*Term{}, locals: map[*ssa.Alloc]*Term{}}
 	st.alloc = ctx.constant("alloc@entry", SInt)
 	ctx.assume(Gt(st.alloc, IntLit(0)))
@@ -140,6 +143,9 @@ func (e *Engine) VerifyFunc(fn *ssa.Function, opts VerifyOpts) (res *FuncResult)
 			f.check("post", label, reach, t, fn.Pos())
 		}
 	}
+	defer func() {
+		res.Cover = &Oblig{Name: "cover:" + ctx.fnKey + ":return", Kind: "cover", Func: ctx.fnKey, CtxLen: len(ctx.cmds), Goal: Not(reach), Expect: "sat", ctx: ctx}
+	}()
 	if opts.ExtraPost != nil {
 		for _, nt := range opts.ExtraPost(f, exit, rs) {
 			kind := "post"
